@@ -23,6 +23,8 @@ func ByNames(names []string) []Script {
 			out = append(out, &Eth{Tag: "e"})
 		case "evidence":
 			out = append(out, &Evidence{Tag: "ev"})
+		case "olvm-one":
+			out = append(out, &OLVM{OneTx: true})
 		case "olvm":
 			out = append(out, &OLVM{})
 		case "stakingb":
